@@ -95,6 +95,8 @@ class CFG:
         if isinstance(e, ast.UnaryOp) and isinstance(e.op, ast.Not) and self._is_compound_test(e.operand):
             t, f = self._cond(e.operand, preds, handlers, owner)
             return f, t
+        if isinstance(e, ast.Constant) and isinstance(e.value, (bool, int, str, bytes, type(None))):
+            return (preds, []) if e.value else ([], preds)     # `while True and ..`
         n = self._new(("COND", e, owner))
         self._link(preds, n)
         if self._may_raise(e):
